@@ -107,7 +107,7 @@ func (e *Engine) bytesSlice(b BytesV, lo, hi any, pos string) any {
 		hi = ln
 	}
 	cond := fmt.Sprintf("(and (<= 0 %s) (<= %s %s) (<= %s %s))", intE(lo), intE(lo), intE(hi), intE(hi), intE(ln))
-	e.oblige(cond, "PANIC slice bounds out of range at "+pos)
+	e.oblige(cond, "PANIC slice bounds out of range at "+relPath(pos))
 	return BytesV{E: fmt.Sprintf("(str.substr %s %s (- %s %s))", bytesE(b), intE(lo), intE(hi), intE(lo))}
 }
 
